@@ -233,4 +233,5 @@ BUILTIN_ENUMS = {
     "Bound": ["Included", "Excluded", "Unbounded"],
     "Poll": ["Ready", "Pending"],
     "Cow": ["Borrowed", "Owned"],
+    "LevelInner": ["Trace", "Debug", "Info", "Warn", "Error"],  # tracing_core::metadata::LevelInner
 }
